@@ -7,6 +7,15 @@ import json
 import re
 import sys
 
+import os as _os
+# things that exist in the process but are none of the transaction, its fields, the rows or the user variables: no
+# expression may ever produce them
+_os.environ['VERIF_CANARY_ENV'] = 'canary-env-7f3a91'
+_os.environ['VERIF_CANARY_NUM'] = '730191.25'
+_os.environ['verif_canary_lower'] = 'canary-env-lower-11c2'
+_os.environ['LARGE_PURCHASE'] = '730192'
+CANARY = re.compile(r'canary-|73019')
+
 EVENTS = []
 ARMED = [False]
 PHASE = ['']
@@ -20,10 +29,7 @@ def hook(event, args):
         #           eval()/exec()/compile() of a string use '<string>' or an explicit name and also raise 'exec'.
     if event == 'import':
         mod = args[0] if args else ''
-        if mod in ('difflib', 'heapq', 'collections', 'statistics', 'numbers', 'fractions', 'decimal', 'math', 'random',
-                   'bisect', '_bisect', '_heapq', '_statistics', 'itertools', 'operator', '_random', '_sha2', 'hashlib',
-                   '_hashlib', '_blake2', 'warnings', 're', 'typing', 'datetime', '_decimal', '_pydecimal', 'contextvars',
-                   '_contextvars', 'locale', '_locale'):
+        if mod in LAZY_OK:
             return
     if event.startswith(('open', 'import', 'exec', 'compile', 'os.', 'subprocess.', 'socket.', 'object.__getattr__',
                          'object.__setattr__', 'object.__delattr__', 'builtins.', 'ctypes.', 'sys._getframe', 'code.__new__',
@@ -33,6 +39,10 @@ def hook(event, args):
         EVENTS.append(event + ':' + repr(args)[:80])
 
 
+# modules the UNCHANGED tree imports lazily while evaluating (fuzzy() imports difflib on first use; pre-imported below, so
+# its own imports are satisfied from sys.modules). A fixed standard-library import made by the implementation on first use
+# is accepted as it stands on the unchanged tree; any OTHER import during evaluation is reported.
+LAZY_OK = ('difflib',)
 sys.addaudithook(hook)
 import warnings  # noqa: E402
 warnings.simplefilter('ignore')   # CPython's own SyntaxWarning lines on stderr are not expression I/O
@@ -129,6 +139,8 @@ def run_one(text):
             s = str(v)
             out['bad_text'] = bool(BAD_TEXT.search(s))
             out['str'] = s[:120]
+            if CANARY.search(s):
+                out['canary'] = 'txn: ' + s[:80]
         except BaseException as e:  # noqa
             out['str_error'] = type(e).__name__
     except EP.ExpressionError:
@@ -154,13 +166,17 @@ def run_one(text):
     PHASE[0] = 'view'
     ARMED[0] = True
     try:
-        ctx = EP.ExpressionContext(transactions=[{'amount': 10.0, 'date': datetime.date(2025, 1, 5), 'category': 'Food',
-                                                  'subcategory': 'Cafe', 'merchant': 'Starbucks', 'tags': ['coffee']}],
+        ctx = EP.ExpressionContext(transactions=[{'amount': a, 'date': d, 'category': 'Food', 'subcategory': 'Cafe',
+                                                  'merchant': 'Starbucks', 'tags': ['coffee']}
+                                                 for a, d in ((10.0, datetime.date(2025, 1, 5)), (12.5, datetime.date(2025, 1, 19)),
+                                                              (7.25, datetime.date(2025, 2, 5)), (30.0, datetime.date(2025, 3, 9)))],
                                    num_months=12, variables={'threshold': 10})
         v = EP.evaluate(text, ctx)
         out['view'] = 'value'
         out['view_value_class'] = classify_value(v)
         out['view_bad_text'] = bool(BAD_TEXT.search(str(v)))
+        if CANARY.search(str(v)):
+            out['canary'] = 'view: ' + str(v)[:80]
     except EP.ExpressionError:
         out['view'] = 'expr_error'
     except BaseException as e:  # noqa
@@ -187,6 +203,8 @@ def run_one(text):
             out['engine'] = 'ok'
             texts = list(r.tags or []) + [str(x) for x in (getattr(r, 'extra_fields', None) or {}).values()]
             out['engine_bad_text'] = [t for t in texts if BAD_TEXT.search(str(t))][:3]
+            if any(CANARY.search(str(t)) for t in texts):
+                out['canary'] = 'engine: ' + ' '.join(str(t) for t in texts if CANARY.search(str(t)))[:80]
             out['engine_value_class'] = classify_value([list(r.tags or []), dict(getattr(r, 'extra_fields', None) or {})])
         except EP.ExpressionError:
             out['engine'] = 'expr_error'
